@@ -192,3 +192,122 @@ end XPathV.Theorems.NonVacuity.C03
 section AxiomAudit
 open XPathV.Theorems.NonVacuity.C03
 end AxiomAudit
+
+/-! ## `Frag2`: input path and following predicate outside `Frag`
+
+`/r[count(*) = 3]/*[2]` — the input path `/r[count(*) = 3]` carries a `count` predicate (in `Frag2`,
+not in `Frag`); `/r/*[2][@x < @y]` — the following predicate compares two paths with `<` (in `Frag2`,
+not in `Frag`).  On `d0` both select `{b}`: `r` has three element children, `b` is the second, and
+at `b` `@x` = 2 < 3 = `@y`. -/
+namespace XPathV.Theorems.NonVacuity.C03
+open XPathV XPathV.Model XPathV.Theorems.NonVacuity XPathV.PosSem
+open XPathV.PathSem XPathV.PredSem XPathV.PredSem2
+
+attribute [local instance] toyAlg
+
+/-- `count(*) = 3` -/
+def bCnt : Ast := .oper "=" (.call "count" "" (.acons (.axis (chE "") .none) .anil)) (.num "3")
+/-- `/r[count(*) = 3]` -/
+def qRc : Ast := .filter qR bCnt
+/-- `@x < @y` -/
+def bXltY : Ast := .oper "<" (.axis (atA "x") .none) (.axis (atA "y") .none)
+
+theorem bCnt_frag : Frag2 false bCnt :=
+  .countR _ _ _ _ (by decide) (.axis _ _ .none (by decide)) (.axis _ _ (by decide) .none)
+theorem qRc_frag : Frag2 true qRc := .filter _ _ (frag2_of_frag _ _ qR_frag) bCnt_frag
+theorem bXltY_frag : Frag2 false bXltY :=
+  .cmpPath _ _ _ (by decide) (.axis _ _ .none (by decide)) (.axis _ _ .none (by decide))
+
+theorem parsed_full_main : ParsesTo "/r[count(*) = 3]/*[2]" (.filter (.axis (chE "") qRc) f2.ast) :=
+  ApiSem.parsesTo_eq (by decide +kernel)
+theorem parsed_full_chain : ParsesTo "/r/*[2][@x < @y]"
+    (stackAst (.filter (.axis (chE "") qR) f2.ast) [bXltY]) :=
+  ApiSem.parsesTo_eq (by decide +kernel)
+
+/-- **`C03_main_full`** on `/r[count(*) = 3]/*[2]`: all hypotheses (`WF`, `nsIface`, `HashInj`,
+`a.axis = "child"`, `Frag2`, `Agree`, `build = .ok`, `validRef`) discharged; the input path selects
+`{r}` and the result is `{b}` -/
+theorem C03_main_full_instance : ∃ (o : BOut), ∃ out, sel (F := Int) d0 {} o.q (.node 0) = .ok out ∧
+    ∀ x, x ∈ refs out ↔ x ∈ [Ref.node 4] := by
+  obtain ⟨o, hb⟩ : ∃ o, build (fun _ => true) 100 true false
+      (.filter (.axis (chE "") qRc) f2.ast) {} {} = .ok o := exists_ok (by decide +kernel)
+  obtain ⟨out, ns, g, origins, g0, h1, h2, h3, h4, _⟩ := Theorems.C03.C03_main_full (F := Int) wf_d0 {} rfl
+    hashInj_d0 (fun _ => true) 100 (chE "") rfl qRc qRc_frag f2 (agree_of_numOK f2 2 _ (f2_numOK _)) {} o hb
+    (.node 0) (by decide)
+  have e : Spec.eval (F := Int) d0 (.filter (.axis (chE "") qRc) f2.ast) ⟨.node 0, 1, 1⟩ =
+      .ok (.val (.nodes [.node 4]) (some [[.node 4]])) := by decide +kernel
+  rw [e] at h2; cases h2
+  exact ⟨o, out, h1, h4⟩
+/-- the input path of the instance is not empty: `/r[count(*) = 3]` selects `r` -/
+example : (Spec.eval (F := Int) d0 qRc ⟨.node 0, 1, 1⟩).map Spec.Res.value =
+    .ok (.nodes [.node 1]) := by decide +kernel
+
+/-- **`C03_on_naturals_full`** on `/r[count(*) = 3]/*[last() - 2]` (`NumOK` discharged): `{a[1]}` -/
+theorem C03_on_naturals_full_instance : ∃ (o : BOut), ∃ out, sel (F := Int) d0 {} o.q (.node 0) = .ok out ∧
+    ∀ x, x ∈ refs out ↔ x ∈ [Ref.node 2] := by
+  obtain ⟨o, hb⟩ : ∃ o, build (fun _ => true) 100 true false
+      (.filter (.axis (chE "") qRc) fLm.ast) {} {} = .ok o := exists_ok (by decide +kernel)
+  obtain ⟨out, ns, g, origins, g0, h1, h2, _, h4, _⟩ := Theorems.C03.C03_on_naturals_full (F := Int) wf_d0 {} rfl
+    hashInj_d0 (fun _ => true) 100 (chE "") rfl qRc qRc_frag fLm 2 (fLm_numOK _) {} o hb
+    (.node 0) (by decide)
+  have e : Spec.eval (F := Int) d0 (.filter (.axis (chE "") qRc) fLm.ast) ⟨.node 0, 1, 1⟩ =
+      .ok (.val (.nodes [.node 2]) (some [[.node 2]])) := by decide +kernel
+  rw [e] at h2; cases h2
+  exact ⟨o, out, h1, h4⟩
+
+/-- **`C03_then_boolean_predicates_full`** on `/r/*[2][@x < @y]`: the following predicate is a
+path-vs-path comparison with `<` -/
+theorem C03_then_boolean_predicates_full_instance :
+    ∃ (o : BOut), ∃ qi, PosChainOK Int d0 {} (chE "") f2 [bXltY] o.q qi qR ⟨.node 0, 1, 1⟩ := by
+  obtain ⟨o, hb⟩ : ∃ o, build (fun _ => true) 100 true false
+      (stackAst (.filter (.axis (chE "") qR) f2.ast) [bXltY]) {} {} = .ok o :=
+    exists_ok (by decide +kernel)
+  obtain ⟨qi, h⟩ := Theorems.C03.C03_then_boolean_predicates_full (F := Int) wf_d0 {} rfl hashInj_d0
+    (fun _ => true) 100 (chE "") rfl qR (frag2_of_frag _ _ qR_frag) f2
+    (agree_of_numOK f2 2 _ (f2_numOK _)) [bXltY] (by
+      intro b hb; simp only [List.mem_cons, List.not_mem_nil, or_false] at hb; subst hb
+      exact bXltY_frag) {} o hb
+  exact ⟨o, qi, h (.node 0) (by decide)⟩
+example : Spec.eval (F := Int) d0 (stackAst (.filter (.axis (chE "") qR) f2.ast) [bXltY])
+    ⟨.node 0, 1, 1⟩ = .ok (.val (.nodes [.node 4]) (some [[.node 4]])) := by decide +kernel
+/-- the predicate decides: true at `b` (2 < 3), false at the first `a` (no `@y`) -/
+example : holds (F := Int) d0 bXltY (.node 4) = true ∧ holds (F := Int) d0 bXltY (.node 2) = false := by
+  decide +kernel
+
+/-- both in one: `/r[count(*) = 3]/*[2][@x < @y]` -/
+theorem C03_then_boolean_predicates_full_instance2 :
+    ∃ (o : BOut), ∃ qi, PosChainOK Int d0 {} (chE "") f2 [bXltY] o.q qi qRc ⟨.node 0, 1, 1⟩ := by
+  obtain ⟨o, hb⟩ : ∃ o, build (fun _ => true) 100 true false
+      (stackAst (.filter (.axis (chE "") qRc) f2.ast) [bXltY]) {} {} = .ok o :=
+    exists_ok (by decide +kernel)
+  obtain ⟨qi, h⟩ := Theorems.C03.C03_then_boolean_predicates_full (F := Int) wf_d0 {} rfl hashInj_d0
+    (fun _ => true) 100 (chE "") rfl qRc qRc_frag f2
+    (agree_of_numOK f2 2 _ (f2_numOK _)) [bXltY] (by
+      intro b hb; simp only [List.mem_cons, List.not_mem_nil, or_false] at hb; subst hb
+      exact bXltY_frag) {} o hb
+  exact ⟨o, qi, h (.node 0) (by decide)⟩
+example : Spec.eval (F := Int) d0 (stackAst (.filter (.axis (chE "") qRc) f2.ast) [bXltY])
+    ⟨.node 0, 1, 1⟩ = .ok (.val (.nodes [.node 4]) (some [[.node 4]])) := by decide +kernel
+
+end XPathV.Theorems.NonVacuity.C03
+
+namespace XPathV.Theorems.NonVacuity.C03
+open XPathV XPathV.Model XPathV.Theorems.NonVacuity XPathV.PosSem
+open XPathV.PathSem XPathV.PredSem XPathV.PredSem2
+
+attribute [local instance] toyAlg
+
+/-- **`C03_position_after_steps_full`** on `/r[count(*) = 3]/*[@y and position() = 2]`: `{b}` -/
+theorem C03_position_after_steps_full_instance : ∃ (o : BOut), ∃ out,
+    sel (F := Int) d0 {} o.q (.node 0) = .ok out ∧ ∀ x, x ∈ refs out ↔ x ∈ [Ref.node 4] := by
+  obtain ⟨o, hb⟩ : ∃ o, build (fun _ => true) 100 true false
+      (.filter (.axis (chE "") qRc) condYP) {} {} = .ok o := exists_ok (by decide +kernel)
+  obtain ⟨out, ns, g, origins, g0, h1, h2, _, h4, _⟩ := Theorems.C03.C03_position_after_steps_full (F := Int)
+    wf_d0 {} rfl hashInj_d0 (fun _ => true) 100 (chE "") rfl qRc qRc_frag condYP condYP_posCond {} o hb
+    (.node 0) (by decide)
+  have e : Spec.eval (F := Int) d0 (.filter (.axis (chE "") qRc) condYP) ⟨.node 0, 1, 1⟩ =
+      .ok (.val (.nodes [.node 4]) (some [[.node 4]])) := by decide +kernel
+  rw [e] at h2; cases h2
+  exact ⟨o, out, h1, h4⟩
+
+end XPathV.Theorems.NonVacuity.C03
